@@ -33,7 +33,8 @@ ASSUMPTIONS = [
     'counter clause checked while caching is on (after deactivate_caching the dictionary content is not compared: the property does not fix it)',
     'analytic integrals of transcendental classes (Genz family except CornerPeak, ExpVar, G, DiagonalDiscont, UQ, Shift, Lambda, base-class quadrature) are cross-checked numerically only in the harness (test, not proof); tolerance 1e-8 relative (1e-6 for scipy-quadrature-based, 2e-2 for the discontinuous simplex indicator)',
     'FunctionUQNormal/FunctionUQNormal2 integrals are weighted integrals (not the integral of eval) and are outside the clause; FunctionGeneralizedNormal is excluded by the property (source marks it incorrect)',
-    'zero coefficients are excluded for classes that divide by them without handling (GenzCornerPeak, GenzDiscontinious, GenzC0, GenzGaussian); GenzProductPeak needs float coefficients (integer arrays raise on ** -2)',
+    'zero coefficients are excluded for classes that divide by them without handling (GenzCornerPeak, GenzDiscontinious, GenzC0, GenzGaussian)',
+    'float32 points are evaluated (and cached) in single precision by numpy: histories containing float32 points are compared with rtol 1e-5; object arrays directly to eval_vectorized overrides and 1-d arrays to the generic eval_vectorized raise on the unchanged code (excluded)',
     'excluded because the unchanged code raises: points of another dimension on dimension-bound classes (ValueError/IndexError/AssertionError), batches mixing tuples and lists (TypeError unhashable), nested arrays while debug is on, reversed boxes',
 ]
 
@@ -76,7 +77,13 @@ def build(spec, watch=None, cform='list'):
     if watch is not None:
         for k_ in ('coeffs', 'mid', 'border', 'mean', 'std', 'a', 'b', 'norms'):
             if isinstance(p.get(k_), list):
-                p[k_] = np.array(p[k_], dtype=float) if cform == 'ndarray' else list(p[k_])
+                integral = all(float(x).is_integer() for x in p[k_])
+                if cform == 'intarray' and integral:        # parameters given as integer arrays / lists of python ints
+                    p[k_] = np.array([int(x) for x in p[k_]], dtype=np.int64)
+                elif cform == 'int' and integral:
+                    p[k_] = [int(x) for x in p[k_]]
+                else:
+                    p[k_] = np.array(p[k_], dtype=float) if cform in ('ndarray', 'intarray') else list(p[k_])
                 watch.add('constructor-argument:%s.%s' % (c, k_), p[k_])
     build_ = lambda s_: build(s_, watch, cform)
     sub = lambda k: build_(p[k])
@@ -525,6 +532,90 @@ def gen_structured_case(rng, pattern=None, cls=None):
     return _arg_axes(rng, {'kind': 'cache', 'fn': fn, 'dim': d, 'ops': ops, 'pattern': pattern})
 
 
+# ---- value / dtype axis: integer and single-precision typed points whose VALUES are non-trivial for the function
+WIDE_RANGE = {'GenzCornerPeak': (0, 3), 'FunctionExpVar': (0, 4), 'FunctionGShifted': (0, 1), 'FunctionInverseTransform': (0, 1),
+              'FunctionCantileverBeamD': (1, 4), 'FunctionUQ': (-2, 2), 'FunctionUQShifted': (-2, 2), 'FunctionUQ2': (-2, 2)}
+
+
+def _widen(rng, spec, integerise):
+    """Move the interesting region of the instance beyond the unit cube (borders > 1) and, if asked, make every parameter
+    sequence integer-valued (so that it can be given as python ints / an integer array)."""
+    c, p = spec['cls'], spec.get('p', {})
+    if 'border' in p:
+        p['border'] = [rng.choice([1.5, 2.5, 3.5] if not integerise else [2.0, 3.0]) for _ in p['border']]
+    if integerise:
+        if 'coeffs' in p:
+            p['coeffs'] = [float(max(1, round(abs(x)))) * (1 if x >= 0 else -1) for x in p['coeffs']]
+        for k_ in ('mid', 'mean'):
+            if k_ in p:
+                p[k_] = [float(round(x)) for x in p[k_]]
+        if 'std' in p:
+            p['std'] = [float(max(1, round(x))) for x in p['std']]
+    for k_ in ('f', 'w'):
+        if isinstance(p.get(k_), dict):
+            _widen(rng, p[k_], integerise)
+    if c == 'FunctionCompose':
+        for s_, _w in p['fs']:
+            _widen(rng, s_, integerise)
+    if c == 'FunctionConcatenate':
+        for s_ in p['fs']:
+            _widen(rng, s_, integerise)
+    return spec
+
+
+def gen_dtype_case(rng, cls=None):
+    """Points given with integer / single-precision number types (arrays of dtype int64, int32, float32, object; python ints;
+    mixed int/float batches; a point as a 1-d array for eval_vectorized overrides) on integer lattices that reach beyond the
+    unit cube, parameters optionally as python ints / integer arrays. Reference: scalar eval of python floats on a fresh
+    instance built from float parameters."""
+    cls = cls or rng.choice(ALL_CACHE_CLASSES)
+    d = FIXED_DIM.get(cls) or rng.choice([1, 2, 2, 3])
+    fn, _dom = gen_fn(rng, d, cls)
+    integerise = rng.random() < 0.4
+    _widen(rng, fn, integerise)
+    lo, hi = WIDE_RANGE.get(cls, (-2, 3))
+    if any(x in json_str(fn) for x in ('GenzCornerPeak', 'FunctionExpVar', 'FunctionInverseTransform', 'FunctionGShifted')):
+        lo = max(lo, 0)
+    if 'FunctionInverseTransform' in json_str(fn) or 'FunctionGShifted' in json_str(fn):
+        hi = 1
+    ipool = [[float(rng.randrange(lo, hi + 1)) for _ in range(d)] for _ in range(rng.choice([2, 3, 5]))]
+    hpool = [[min(float(hi), rng.randrange(lo, hi + 1) + rng.choice([0.0, 0.5, 0.25])) for _ in range(d)] for _ in range(2)]
+    use_f32 = rng.random() < 0.25
+    override = cls in VEC_OVERRIDE
+    ops = []
+    for _ in range(rng.randrange(3, 11)):
+        r = rng.random()
+        ints = rng.random() < 0.7
+        pool = ipool if ints else ipool + hpool
+        if r < 0.25:
+            p = list(rng.choice(pool))
+            forms = (['int', 'npint', 'i32arr', 'tuple'] if ints else ['tuple', 'list', 'ndarray']) + (['f32', 'f32arr'] if use_f32 else [])
+            ops.append(['single', p, rng.choice(forms)])
+        elif r < 0.6:
+            ps = [list(rng.choice(pool)) for _ in range(rng.randrange(1, 5))]
+            forms = (['int64', 'int32', 'object', 'pyint', 'pyint', 'mixed'] if ints else ['mixed', 'ndarray', 'tuple']) + (['float32'] if use_f32 else [])
+            ops.append(['batch', ps, rng.choice(forms)])
+        elif r < 0.8:
+            ps = [list(rng.choice(pool)) for _ in range(rng.randrange(1, 5))]
+            forms = (['int64', 'int32'] if ints else ['float64']) + (['float32'] if use_f32 else [])
+            ops.append(['vec', ps, rng.choice(forms)])
+        elif r < 0.88 and override:
+            p = list(rng.choice(pool))
+            ops.append(['vec1', p, rng.choice((['i32arr'] if ints else ['ndarray']) + (['f32arr'] if use_f32 else []))])
+        elif r < 0.94:
+            ops.append(['reset'])
+        else:
+            ops.append(['size'])
+    c = {'kind': 'cache', 'fn': fn, 'dim': d, 'ops': ops, 'pattern': 'dtype'}
+    c['cform'] = rng.choice(['int', 'intarray']) if integerise else rng.choice(['list', 'ndarray'])
+    return c
+
+
+def json_str(x):
+    import json
+    return json.dumps(x)
+
+
 def gen_xdim_case(rng, pattern=None, cls=None):
     """ONE object of a dimension-free class used for problems of different dimension, one after the other."""
     pattern = pattern or rng.choice(XPATTERNS)
@@ -702,20 +793,47 @@ def _norm_value(v):
     return [float(x) for x in np.asarray(v).ravel()]
 
 
+F32_FORMS = ('f32', 'f32arr', 'float32')
+INT_FORMS = ('int', 'npint', 'i32arr', 'intarray', 'int32', 'int64', 'pyint', 'object')
+
+
 def _as_form(np, pts, form, d, single):
+    """The caller's container and number type for a point / a batch of points. Integer forms are generated for integral values only."""
     if single:
         if form == 'list': return list(pts)
         if form == 'ndarray': return np.array(pts, dtype=float)
         if form == 'npfloat': return tuple(np.float64(x) for x in pts)
         if form == 'int': return tuple(int(x) for x in pts)
+        if form == 'npint': return tuple(np.int64(int(x)) for x in pts)
+        if form == 'i32arr': return np.array([int(x) for x in pts], dtype=np.int32)
+        if form == 'f32': return tuple(np.float32(x) for x in pts)
+        if form == 'f32arr': return np.array(pts, dtype=np.float32)
         return tuple(pts)
     if form == 'ndarray':
         return np.array(pts, dtype=float).reshape((len(pts), d))
-    if form == 'intarray':
-        return np.array([[int(x) for x in p] for p in pts], dtype=int).reshape((len(pts), d))
+    if form in ('intarray', 'int64'):
+        return np.array([[int(x) for x in p] for p in pts], dtype=np.int64).reshape((len(pts), d))
+    if form == 'int32':
+        return np.array([[int(x) for x in p] for p in pts], dtype=np.int32).reshape((len(pts), d))
+    if form == 'float32':
+        return np.array(pts, dtype=np.float32).reshape((len(pts), d))
+    if form == 'object':
+        return np.array([[int(x) for x in p] for p in pts], dtype=object).reshape((len(pts), d))
+    if form == 'pyint':
+        return [tuple(int(x) for x in p) for p in pts]
+    if form == 'mixed':                      # python ints and floats in one batch (integral coordinates of every other point as int)
+        return [tuple(int(x) if (j % 2 and float(x).is_integer()) else float(x) for x in p) for j, p in enumerate(pts)]
     if form == 'tot':
         return tuple(tuple(p) for p in pts)
     return [tuple(p) if form == 'tuple' else list(p) for p in pts]
+
+
+def case_tol(case):
+    """float32 points are evaluated in single precision by the numpy overrides (and cached in that precision)"""
+    for op in case['ops']:
+        if op[0] in ('single', 'batch', 'vec', 'vec1') and len(op) > 2 and op[2] in F32_FORMS:
+            return (1e-5, 1e-6)
+    return (RTOL, ATOL)
 
 
 def _key(p):
@@ -726,6 +844,7 @@ def _op_points(op):
     k = op[0]
     if k == 'single': return [op[1]]
     if k in ('batch', 'vec'): return op[1]
+    if k == 'vec1': return [op[1]]
     if k == 'vecn': return [p for blk in op[1] for p in blk]
     return []
 
@@ -757,7 +876,12 @@ def impl_cache(case):
     specs = case_specs(case)
     watch = Watch()
     cform = case.get('cform', 'list')
-    objs = [build(s, watch, cform) for s in specs]         # all objects of the case are alive during the whole history
+    try:
+        objs = [build(s, watch, cform) for s in specs]         # all objects of the case are alive during the whole history
+        if 'GenzProductPeak' in json_str(specs) and cform in ('int', 'intarray'):
+            objs[0].eval(tuple(0.5 for _ in range(case['dim'])))      # integer coefficients: coeffs ** (-2) is evaluated lazily
+    except Exception as e:
+        return {'build_failed': _exc_record(e), 'cform': cform}
     scribble = bool(case.get('scribble'))
     cur = 0
     out = []
@@ -786,8 +910,12 @@ def impl_cache(case):
                 d = len(op[1][0]) if op[1] else case['dim']
                 rec = val(f(arg('points', op[2], op[1], lambda: _as_form(np, op[1], op[2], d, False))))
             elif k == 'vec':
-                d = len(op[1][0]) if op[1] else case['dim']      # the same array object as a batch call in ndarray form
-                rec = val(f.eval_vectorized(arg('points', 'ndarray', op[1], lambda: np.array(op[1], dtype=float).reshape((len(op[1]), d)))))
+                d = len(op[1][0]) if op[1] else case['dim']      # the same array object as a batch call in the same array form
+                vform = op[2] if len(op) > 2 else 'ndarray'
+                rec = val(f.eval_vectorized(arg('points', {'float64': 'ndarray', 'int64': 'intarray'}.get(vform, vform), op[1],
+                                                lambda: _as_form(np, op[1], {'float64': 'ndarray'}.get(vform, vform), d, False))))
+            elif k == 'vec1':                                    # a single point as a 1-d array, directly to an eval_vectorized override
+                rec = val(f.eval_vectorized(arg('point', op[2], op[1], lambda: _as_form(np, op[1], op[2], len(op[1]), True))))
             elif k == 'vecn':
                 rec = val(f.eval_vectorized(arg('points', 'ndarray3', op[1], lambda: np.array(op[1], dtype=float))))
             elif k == 'reset':
@@ -1174,7 +1302,7 @@ def wire_op(op):
 
 
 def wire_ops(ops):
-    return [wire_op(op) for op in ops if op[0] not in ('obj', 'vecn', 'debug')]
+    return [wire_op(op) for op in ops if op[0] not in ('obj', 'vecn', 'vec1', 'debug')]
 
 
 def project_ops(case):
@@ -1186,7 +1314,7 @@ def project_ops(case):
     for i, op in enumerate(case['ops']):
         if op[0] == 'obj':
             cur = int(op[1])
-        elif op[0] != 'vecn':
+        elif op[0] not in ('vecn', 'vec1'):
             per[cur].append(i)
     return per
 
@@ -1202,7 +1330,7 @@ def np_prod(xs):
     return r
 
 
-def cmp_step(op, m, i, olen):
+def cmp_step(op, m, i, olen, tol=(RTOL, ATOL)):
     """Compare one step of the model (decoded wire) with the implementation record. Returns list of (observable, detail)."""
     mres, msize, mdict, mcache = m[:4]
     diffs = []
@@ -1223,7 +1351,7 @@ def cmp_step(op, m, i, olen):
             want_shape = [[len(rows), olen]] + ([[len(rows)]] if olen == 1 else [])
         if i['shape'] not in want_shape:
             diffs.append(('shape', 'implementation shape %s, expected %s' % (i['shape'], want_shape[0])))
-        elif not close_list(flat, i['vals']):
+        elif not close_list(flat, i['vals'], *tol):
             diffs.append(('values', 'implementation %s, model (= direct eval) %s' % (i['vals'][:6], flat[:6])))
     elif tag == 3:
         if op[0] in ('reset', 'deact') and i.get('ret') != 'None':
@@ -1238,7 +1366,7 @@ def cmp_step(op, m, i, olen):
         ik = [k for k, _ in i['dict']]
         if [k for k, _ in md] != ik:
             diffs.append(('dict-keys', 'implementation %s, model %s' % (ik[:5], [k for k, _ in md][:5])))
-        elif not all(close_list(mv, iv) for (_, mv), (_, iv) in zip(md, i['dict'])):
+        elif not all(close_list(mv, iv, *tol) for (_, mv), (_, iv) in zip(md, i['dict'])):
             diffs.append(('dict-values', 'cached values differ from direct eval'))
     return diffs
 
@@ -1258,6 +1386,7 @@ def oracle_cache(case, r):
     """The property's predicate on the implementation alone. Returns list of (kind, sig, step, detail).
     Reference values: the scalar eval of FRESH instances (r['tables'], one per object of the case)."""
     specs = case_specs(case)
+    tol = case_tol(case)
     olens = r.get('olens') or [r['olen']] * len(specs)
     tabs = [{tuple(k): v for k, v in t} for t in (r.get('tables') or [r['table']])]
     bad = []
@@ -1289,7 +1418,7 @@ def oracle_cache(case, r):
         olen = olens[cur]
         cls = specs[cur]['cls']
         ev = lambda p: tabs[cur][_key(p)]
-        if k in ('single', 'batch', 'vec', 'vecn'):
+        if k in ('single', 'batch', 'vec', 'vecn', 'vec1'):
             pts = _op_points(op)
             want = [ev(p) for p in pts]
             xdim = bool(pts) and bool(dims_seen[cur] - {len(pts[0])})       # the object has seen another dimension before
@@ -1302,6 +1431,9 @@ def oracle_cache(case, r):
                     bad.append(('single-point-cache-off-raises', {'exc': i['exc']}, step, i.get('msg')))
                 elif k == 'batch' and not pts and i['exc'] == 'IndexError':
                     bad.append(('empty-batch-raises', {'exc': i['exc']}, step, i.get('msg')))
+                elif 'Integers to negative integer powers' in (i.get('msg') or ''):
+                    bad.append(('integer-negative-power-raises', {'cls': cls, 'exc': i['exc']}, step,
+                                'integer coefficients and integer coordinates: %s' % i.get('msg')))
                 else:
                     bad.append(('call-raises', {'exc': i['exc'], 'op': k, 'cache_on': on[cur], 'empty': not pts,
                                                 'big': len(pts) >= 64}, step, i.get('msg')))
@@ -1312,14 +1444,16 @@ def oracle_cache(case, r):
                 shapes = [[len(pts), olen]]
             elif k == 'vec':
                 shapes = [[len(pts), olen]] + ([[len(pts)]] if olen == 1 else [])
+            elif k == 'vec1':
+                shapes = [[olen], []] if olen == 1 else [[olen]]
             else:
                 outer = [len(op[1]), len(op[1][0])]
                 shapes = [outer + [olen]] + ([outer] if olen == 1 else [])
             if i['shape'] not in shapes:
                 bad.append(('shape-differs', {'op': k, 'empty': not pts}, step, 'shape %s, expected %s' % (i['shape'], shapes[0])))
-            elif not close_list([x for w in want for x in w], i['vals']):
+            elif not close_list([x for w in want for x in w], i['vals'], *tol):
                 got, exp = i['vals'], [x for w in want for x in w]
-                j = next((j for j, (x, y) in enumerate(zip(got, exp)) if not close(x, y)), 0)
+                j = next((j for j, (x, y) in enumerate(zip(got, exp)) if not close(x, y, *tol)), 0)
                 if got[j] == SENTINEL:
                     # the value the caller wrote into an array RETURNED by an earlier call comes back: that array aliases internal state
                     pj = _key(pts[min(j // max(olen, 1), len(pts) - 1)])
@@ -1500,6 +1634,14 @@ CORPUS_CACHE = [
     {'kind': 'cache', 'fn': {'cls': 'FunctionCantileverBeamD', 'p': {}}, 'dim': 3, 'ops': [['single', [1.0, 2.0, 3.0], 'tuple']]},
     {'kind': 'cache', 'fn': {'cls': 'GenzGaussian', 'p': {'coeffs': [1.0, 2.0], 'mid': [0.5, 0.5]}}, 'dim': 2,
      'ops': [['batch', [[0.25, 0.5], [0.5, 0.5]], 'tuple'], ['single', [0.25, 0.5], 'tuple']], 'cform': 'list', 'scribble': True},
+    {'kind': 'cache', 'fn': {'cls': 'GenzCornerPeak', 'p': {'coeffs': [2.0, 1.0]}}, 'dim': 2, 'ops': [['vec', [[1.0, 2.0]], 'int32']],
+     'pattern': 'dtype', 'cform': 'int'},
+    {'kind': 'cache', 'fn': {'cls': 'GenzProductPeak', 'p': {'coeffs': [1.0, 2.0], 'mid': [0.5, 0.5]}}, 'dim': 2,
+     'ops': [['single', [0.25, 0.25], 'tuple']], 'pattern': 'dtype', 'cform': 'intarray'},
+    # number types: integer arrays strictly inside the support of a discontinuous function beyond the unit cube
+    {'kind': 'cache', 'fn': {'cls': 'GenzDiscontinious', 'p': {'coeffs': [0.5, 0.25], 'border': [2.5, 2.5]}}, 'dim': 2,
+     'ops': [['batch', [[1.0, 2.0], [2.0, 1.0], [3.0, 0.0]], 'int64'], ['single', [1.0, 2.0], 'int'], ['vec', [[-1.0, 2.0], [1.0, 1.0]], 'int32'],
+             ['batch', [[1.0, 2.0], [0.5, 1.0]], 'mixed'], ['vec1', [2.0, 2.0], 'i32arr'], ['size']], 'pattern': 'dtype', 'cform': 'list'},
     # regression: batch then single hit, reset, repeated, size
     {'kind': 'cache', 'fn': {'cls': 'GenzCornerPeak', 'p': {'coeffs': [1.0, 2.0]}}, 'dim': 2,
      'ops': [['batch', [[0.5, 0.25], [1.0, 1.0], [0.5, 0.25]], 'tuple'], ['size'], ['single', [1.0, 1.0], 'tuple'], ['reset'], ['size'],
@@ -1558,6 +1700,12 @@ def check_cache_cases(chk, cases):
     for ci, (c, (st, r)) in enumerate(zip(cases, impl)):
         if st != 'ok':
             chk.violation('corr:C12/cache_history', 'worker-failed', {'status': st}, c, dict(impl=str(r)), failing_input=False)
+            continue
+        if r.get('build_failed'):
+            bf = r['build_failed']
+            kind = 'integer-negative-power-raises' if 'Integers to negative integer powers' in (bf.get('msg') or '') else 'constructor-raises'
+            chk.violation('oracle:cache_transparent', kind, {'cls': c['fn']['cls'], 'exc': bf['exc']}, dict(c, ops=c['ops'][:1]),
+                          dict(where=bf.get('where'), msg=bf.get('msg'), parameters_given_as=r['cform']))
             continue
         if any(not finite(v) for t in r['tables'] for _k, v in t):
             chk.count('cache:nonfinite-or-undefined-eval')
@@ -1635,7 +1783,7 @@ def check_cache_cases(chk, cases):
             chk.count('cache:point-dim=%d' % d_)
         for op in c['ops']:
             chk.count('cache:op=' + op[0] + ('-empty' if op[0] in ('batch', 'vec') and not op[1] else ''))
-            if op[0] in ('single', 'batch'):
+            if op[0] in ('single', 'batch') or (op[0] in ('vec', 'vec1') and len(op) > 2):
                 chk.count('cache:form=%s/%s' % (op[0], op[2]))
             if op[0] in ('batch', 'vec'):
                 chk.count('cache:batchsize=' + _bucket(len(op[1])))
@@ -1664,7 +1812,7 @@ def check_cache_cases(chk, cases):
                 elif not close_list([x for row in rows for x in row], i['vals']):
                     d_fixed.append((s, [('values', 'nested eval_vectorized differs from the model')]))
                 continue
-            dl = [(s, cmp_step(c['ops'][s], m, r['steps'][s], r['olens'][oi])) for s, m in zip(idxs, mr)]
+            dl = [(s, cmp_step(c['ops'][s], m, r['steps'][s], r['olens'][oi], case_tol(c))) for s, m in zip(idxs, mr)]
             (d_fixed if v == 'fixed' else d_cur).extend(dl)
         d_fixed.sort(key=lambda x: x[0]); d_cur.sort(key=lambda x: x[0])
         nf = sum(1 for _, d in d_fixed if d); nc = sum(1 for _, d in d_cur if d)
@@ -1911,7 +2059,7 @@ def check_integral_cases(chk, cases):
         nontrivial = max(bdims + [0]) >= 2 or cls in ('Polynomial1d', 'LambdaFunction')
         if nontrivial:
             keys.append(('integral', cls, str(spec['p']), str(c['boxes'])))
-        if len(samples) < 2 and max(bdims + [0]) >= 2 and cls.startswith('Genz') and r['boxes'][0]['analytic']['st'] == 'ok':
+        if len(samples) < 2 and max(bdims + [0]) >= 2 and cls.startswith('Genz') and r['boxes'][0]['analytic']['st'] == 'ok' and r['boxes'][0].get('numeric'):
             samples.append(dict(fn=spec, box=c['boxes'][0], analytic=r['boxes'][0]['analytic']['vals'], numeric=r['boxes'][0]['numeric']['vals']))
     return keys, samples
 
@@ -1967,7 +2115,7 @@ ALL_CACHE_CLASSES = ['ConstantValue', 'FunctionDiagonalDiscont', 'FunctionShift'
 def run(chk):
     chk.coq_obligations()
     rng = chk.rng
-    n_cache = chk.n(640, 16000)
+    n_cache = chk.n(740, 17000)
     n_int = chk.n(300, 6000)
     ccases = list(CORPUS_CACHE)
     # every built-in class at least a few times, then free choice
@@ -1998,9 +2146,12 @@ def run(chk):
     for cls in VEC_OVERRIDE:
         for _ in range(chk.n(2, 12)):
             ccases.append(gen_cache_case(rng, cls, debug=True))
+    for cls in ALL_CACHE_CLASSES:                     # number types of the points and of the parameters
+        for _ in range(chk.n(4 if cls in VEC_OVERRIDE else 2, 24)):
+            ccases.append(gen_dtype_case(rng, cls))
     while len(ccases) < n_cache:
         x = rng.random()
-        ccases.append(gen_structured_case(rng) if x < 0.2 else gen_xdim_case(rng) if x < 0.35 else gen_cache_case(rng))
+        ccases.append(gen_structured_case(rng) if x < 0.2 else gen_xdim_case(rng) if x < 0.35 else gen_dtype_case(rng) if x < 0.45 else gen_cache_case(rng))
     icases = list(CORPUS_INTEGRAL)
     for cls in INTEGRAL_CLASSES:
         for _ in range(chk.n(4, 60)):
